@@ -31,7 +31,8 @@ class Rule:
         self.notes.append(text)
 
     def count(self):
-        return len(self.instances)
+        # rules whose expected number of findings is zero count what they scanned (a positive control for the matcher)
+        return getattr(self, "count_override", None) or len(self.instances)
 
 
 class Report:
